@@ -660,6 +660,75 @@ func txFalsOn(get func(resp interface{}) *ctypes.ResultTx) []fals {
 	}
 }
 
+// txPositionFals: the node moves the transaction to another position and keeps
+// its lie self-consistent: ResultTx.Index and Proof.Proof.Index are changed
+// alike (so a client that ties the two agrees), to every value from -1 to
+// total+2, with the proof's total unchanged, -1 or +1; tx bytes, hash, height,
+// root, leaf hash and aunts stay genuine.  Only the (tx, height, index) triples
+// that are really in the verified block may be relayed.
+func txPositionFals(get func(resp interface{}) *ctypes.ResultTx) []fals {
+	var out []fals
+	for v := int64(-1); v <= 11; v++ {
+		for _, dt := range []int64{0, -1, 1} {
+			v, dt := v, dt
+			out = append(out, fals{fmt.Sprintf("index and proof index -> %d alike, proof total %+d", v, dt), "index",
+				func(r *rand.Rand, cc *chainCtx, resp interface{}) bool {
+					t := get(resp)
+					if t == nil {
+						return false
+					}
+					n := t.Proof.Proof.Total
+					if v > n+2 || (v == int64(t.Index) && dt == 0) {
+						return false
+					}
+					t.Index = uint32(v) // -1 wraps to 2^32-1: the field cannot say -1
+					t.Proof.Proof.Index, t.Proof.Proof.Total = v, n+dt
+					return true
+				}})
+		}
+	}
+	out = append(out, fals{"index and proof index -> 2^32-1 alike", "index", func(r *rand.Rand, cc *chainCtx, resp interface{}) bool {
+		t := get(resp)
+		if t == nil {
+			return false
+		}
+		t.Index, t.Proof.Proof.Index = ^uint32(0), int64(^uint32(0))
+		return true
+	}}, fals{"index and proof index -> total alike, proof total -> 2*total", "index", func(r *rand.Rand, cc *chainCtx, resp interface{}) bool {
+		t := get(resp)
+		if t == nil {
+			return false
+		}
+		n := t.Proof.Proof.Total
+		t.Index, t.Proof.Proof.Index, t.Proof.Proof.Total = uint32(n), n, 2*n
+		return true
+	}})
+	return out
+}
+
+func txPositionFalsTx() []fals {
+	return txPositionFals(func(resp interface{}) *ctypes.ResultTx { return resp.(*ctypes.ResultTx) })
+}
+
+// in a TxSearch answer: the result at position `at` of the list (-1 = the last one)
+func txPositionFalsSearch(at int) []fals {
+	fs := txPositionFals(func(resp interface{}) *ctypes.ResultTx {
+		ts := resp.(*ctypes.ResultTxSearch).Txs
+		i := at
+		if i < 0 {
+			i = len(ts) - 1
+		}
+		if i < 0 || i >= len(ts) {
+			return nil
+		}
+		return ts[i]
+	})
+	for i := range fs {
+		fs[i].Name = "a result: " + fs[i].Name
+	}
+	return fs
+}
+
 func txFals() []fals {
 	return txFalsOn(func(resp interface{}) *ctypes.ResultTx { return resp.(*ctypes.ResultTx) })
 }
